@@ -37,6 +37,10 @@ from concurrent.futures import FIRST_COMPLETED, ProcessPoolExecutor, wait  # noq
 
 from simkit import boot  # noqa: E402
 
+import warnings  # noqa: E402
+
+warnings.filterwarnings("ignore", category=RuntimeWarning)       # "coroutine ... was never awaited" of discarded worlds
+warnings.filterwarnings("ignore", category=ResourceWarning)
 ROOT = os.path.dirname(os.path.dirname(os.path.abspath(__file__)))
 PERF = boot.REAL_PERF
 
